@@ -1,6 +1,6 @@
 module verif/harness
 
-go 1.20
+go 1.23
 
 require github.com/uber-go/tally/v4 v4.0.0
 
